@@ -3,23 +3,23 @@
 # (clone of /repo + patch, VERIF_REPO=<clone>) and records exit codes in seeded/cross_matrix.json.
 set -u
 V="$(cd "$(dirname "$0")/.." && pwd)"
-S=/tmp/cross_repo
+S="${CROSS_DIR:-/tmp/cross_repo}"
 [ -d "$S/.git" ] || git clone -q /repo "$S" || exit 2
 seeds=("$@"); [ ${#seeds[@]} -eq 0 ] && seeds=("$V"/seeded/C*-*)
 OUT="$V/seeded/cross_matrix.json"; [ -f "$OUT" ] || echo "{}" > "$OUT"
 IDS=$(cat "$V/tools/built.txt")
 for d in "${seeds[@]}"; do
   name=$(basename "$d"); [ -f "$d/patch.diff" ] || continue
-  if python3 -c "import json,sys; m=json.load(open('$OUT')); sys.exit(0 if '$name' in m and len(m['$name'])>=20 else 1)"; then continue; fi
+  if [ -z "${FORCE:-}" ] && python3 -c "import json,sys; m=json.load(open('$OUT')); sys.exit(0 if '$name' in m and len(m['$name'])>=20 else 1)"; then continue; fi
   ( cd "$S" && git fetch -q origin && git checkout -q -f --detach origin/main 2>/dev/null || git checkout -q -f --detach "$(git -C /repo rev-parse HEAD)"; git clean -fdq -e .hcv-build; git apply "$d/patch.diff" ) || { echo "$name: patch does not apply at HEAD"; continue; }
   row="{}"
   for c in $IDS; do
-    ( cd "$V" && VERIF_OUT_DIR=/tmp/cross_out_$$ VERIF_REPO="$S" VERIF_BUDGET_S=60 nice -n 5 ./check "$c" quick > /tmp/cross_$$.log 2>&1 ); e=$?
+    ( cd "$V" && VERIF_OUT_DIR=/tmp/cross_out_$$ VERIF_REPO="$S" VERIF_BUDGET_S=120 nice -n 5 ./check "$c" quick > /tmp/cross_$$.log 2>&1 ); e=$?
     k=$(grep -E "^  key=" /tmp/cross_$$.log | head -1 | sed -E 's/^  key=//; s/ section=.*//' | cut -c1-100)
     row=$(python3 -c "import json,sys; r=json.loads(sys.argv[1]); r[sys.argv[2]]={'exit':int(sys.argv[3]),'first_key':sys.argv[4]}; print(json.dumps(r))" "$row" "$c" "$e" "$k")
     rm -rf /tmp/cross_out_$$
   done
-  python3 -c "import json,sys; m=json.load(open('$OUT')); m['$name']=json.loads(sys.argv[1]); json.dump(m,open('$OUT','w'),indent=1)" "$row"
+  flock "$OUT.lock" python3 -c "import json,sys; m=json.load(open('$OUT')); m['$name']=json.loads(sys.argv[1]); json.dump(m,open('$OUT','w'),indent=1)" "$row"
   echo "$name: $(python3 -c "import json,sys; r=json.loads(sys.argv[1]); print(' '.join(k for k,v in r.items() if v['exit']==1), '| machinery:', ' '.join(k for k,v in r.items() if v['exit'] not in (0,1)))" "$row")"
 done
 rm -f /tmp/cross_$$.log
